@@ -37,12 +37,12 @@ const (
 )
 
 type pval struct {
-	k    pkind
-	d    delta   // pkPS
-	el   []pval  // pkTup
-	fn   ir.Term // pkFn: Lam | PApp | FuncRef | Param
-	env  penv    // closure environment for Lam
-	why  string  // pkTop: explanation
+	k   pkind
+	d   delta   // pkPS
+	el  []pval  // pkTup
+	fn  ir.Term // pkFn: Lam | PApp | FuncRef | Param
+	env penv    // closure environment for Lam
+	why string  // pkTop: explanation
 }
 
 type penv map[*types.Var]pval
@@ -158,17 +158,18 @@ var pairWhoMayCall = map[string][]string{
 }
 
 type pairAn struct {
-	c       *Ctx
-	f       *FC
-	nr      map[string]bool
-	sum     map[string]pval
-	cur     *ir.Func
-	psParam map[string]int // index of the (single) ParseState parameter, -1 if none
-	report  bool
-	obls    map[string]bool
-	psType  types.Type
+	c            *Ctx
+	f            *FC
+	nr           map[string]bool
+	sum          map[string]pval
+	cur          *ir.Func
+	psParam      map[string]int // index of the (single) ParseState parameter, -1 if none
+	report       bool
+	obls         map[string]bool
+	psType       types.Type
 	pushes, pops int
-	depth   int
+	depth        int
+	cx           *pairCtx // non-nil while the absolute-depth pass (pair_ctx.go) runs
 }
 
 func (a *pairAn) isPS(t types.Type) bool {
@@ -408,10 +409,17 @@ func (a *pairAn) call(fun ir.Term, args []pval, env penv, argTerms []ir.Term) pv
 		sig := sigOf(f)
 		// callback obligations: every function-typed parameter that returns a ParseState gets a balanced function
 		if sig != nil {
+			if a.cx != nil {
+				a.cx.mute++
+			}
 			for i := 0; i < sig.Params().Len() && i < len(args); i++ {
 				if psig, ok := sig.Params().At(i).Type().Underlying().(*types.Signature); ok {
 					a.balanced(args[i], psig, fmt.Sprintf("the function bound to parameter %s of %s", sig.Params().At(i).Name(), name))
 				}
+			}
+			if a.cx != nil {
+				a.cx.mute--
+				a.cxCall(f, sig, args)
 			}
 		}
 		switch f.Key {
@@ -472,6 +480,9 @@ func (a *pairAn) call(fun ir.Term, args []pval, env penv, argTerms []ir.Term) pv
 		}
 		return pOther
 	case *ir.Lam, *ir.PApp, *ir.Param:
+		if p, ok := fun.(*ir.Param); ok {
+			a.cxParamApplied(p, args)
+		}
 		return a.applyFn(pval{k: pkFn, fn: fun, env: env}, args)
 	case *ir.Local:
 		if v, ok := env[f.Obj]; ok && v.k == pkFn {
@@ -518,6 +529,13 @@ func (a *pairAn) eval(t ir.Term, env penv) pval {
 	case *ir.Lam:
 		return pval{k: pkFn, fn: x, env: env}
 	case *ir.PApp:
+		if a.cx != nil {
+			if fr, ok := x.Fun.(*ir.FuncRef); ok {
+				if idx, ok := a.cx.binderFns[fr.Key]; ok && idx < len(x.First) {
+					a.cxSite(strings.TrimPrefix(fr.Key, a.f.Path+"."), x.Pos(), x.First[idx], env)
+				}
+			}
+		}
 		return pval{k: pkFn, fn: x, env: env}
 	case *ir.FuncRef:
 		return pval{k: pkFn, fn: x}
@@ -596,6 +614,13 @@ func (a *pairAn) eval(t ir.Term, env penv) pval {
 				return pBot
 			}
 			return pOther
+		}
+		if a.cx != nil {
+			if fr, ok := x.Fun.(*ir.FuncRef); ok {
+				if idx, ok := a.cx.binderFns[fr.Key]; ok && idx < len(x.Args) {
+					a.cxSite(strings.TrimPrefix(fr.Key, a.f.Path+"."), x.Pos(), x.Args[idx], env)
+				}
+			}
 		}
 		return a.call(x.Fun, args, env, x.Args)
 	case *ir.Record:
@@ -806,6 +831,7 @@ func runPair(c *Ctx, f *FC, nr map[string]bool) *pairAn {
 		}
 	}
 	sort.Strings(nz)
+	a.runPairDepth(fns)
 	r.Note("PAIR P3: non-primitive functions with a non-zero summary (legal when compensated by their callers): %s", strings.Join(nz, ", "))
 	return a
 }
